@@ -30,6 +30,20 @@ RULE = ("sorts: every array of length 0..7 over 3 key symbols (quick) / 0..9 ove
         "doubling); ALLOCATION FAILURE injected (-Wl,--wrap=malloc,realloc,calloc; token F): the 1st/2nd/3rd growth of a "
         "full heap fails and the heap is used afterwards (a refused insert / ensure_capacity must change nothing), random "
         "histories with failing growths, sorts with failing allocations (refusal must leave the array untouched). "
+        "CLEAR / DESTROY AND REUSE: heaps of size 0..6 (full, partly consumed) are cleared with all-NULL free functions "
+        "(clr N), with counting free callbacks (clr C: every key and every non-NULL value must be handed to its callback "
+        "exactly once, with the right pool) or destroyed and re-initialised (reinit), and the SAME heap object is used "
+        "afterwards (root/extract/find/remove on the emptied heap, new inserts, drain, a second clear); also inside the "
+        "random histories. "
+        "FREE CALLBACKS as a per-call choice: rem / remf / clr with both callbacks, all NULL (N), key only (K), value only (V) "
+        "(a callback that is passed must be handed the key / value of each released entry exactly once, one that is not "
+        "passed nothing; the heap must change in the same way whatever the choice).  COMPARATOR MAGNITUDES: besides "
+        "-1/0/1 the driver's comparator returns the key difference (cmp diff) or twice it (cmp big, never +-1) in a third of "
+        "the heap histories, in copies of the structured / exhaustive-small sort cases and in random sort cases.  SCALE: one "
+        "family of heap histories growing by doubling from capacity 1 to 8192 (4200 inserts in a row; thorough also 2000 / 9000), "
+        "then extracts / inserts mixed, a clear and reuse, many equal keys (no dump per op, dumps on demand); arrays with MANY EQUAL keys of "
+        "20000 (quick) / 16384, 16385, 20000, 32768, 40000 (thorough) elements through shell / heap / merge / quick sort "
+        "(monitor only). "
         "ADVERSARIAL quick-sort inputs: Musser median-of-3 killer permutations (lengths 100..4000) with their mirror / "
         "reversal, and McIlroy's antiquicksort run against the implementation under test in both orientations (pivot "
         "smallest / pivot largest), the resulting concrete arrays (n = 64..4000) fed to all five sorts and the model. "
@@ -41,6 +55,17 @@ TRUSTED_BASE = [
     "MUGGLE_DS_CAP_IS_VALID is modelled)",
     "quick-sort cutoff re-extracted on every run by compiling a program that #includes muggle/c/dsaa/sort.c and prints "
     "QUICK_SORT_CUTOFF (coq/gen/Params_C10.v); side condition 3 <= cutoff re-checked by the kernel",
+    "second tie (translator kind): lib/props/c10_slice.py reads the clang 14 JSON AST of heap.c and sort.c on every run, cuts "
+    "every loop of insert / extract / remove / find / clear, insertion / shell / heap / merge / quick sort at its head and its "
+    "exit into loop-free segments (entry -> first head, ONE ITERATION, exit -> next cut / return), executes each symbolically "
+    "(for/while/do, break/continue, ++ in subscripts, helper calls inlined with pointer parameters into the arrays, library calls "
+    "as events with their footprint havocked, comparator callback = abstract cmp, pointer locals = array index, loop-head-derived "
+    "locals substituted) and emits it as a Gallina function over two arrays Z -> Z and the integer state (coq/gen/Params_C10.v "
+    "gen_*); 43 obligations gen_*_matches_model prove each equal to the hand-written segment of coq/C10/Steps.v (tag of the cut "
+    "reached, arrays pointwise, state vector, calls with arguments, arrays handed to the calls) by one shape-independent decision "
+    "tactic, for every comparator whose sign follows the keys and indices < 2^62; 6 theorems model_*_is_*_step prove that the "
+    "fuelled loops sift_up / sift_down / remove_loop / ins_inner / scan_up / scan_down of the model are the iterations of those "
+    "segments; trusted: clang's AST, the slicer (symbolic execution, canonical ordering of the inputs by first occurrence)",
 ]
 ASSUMPTIONS = [
     "comparators are total preorders (DESIGN.md Appendix B), i.e. induced by an integer-valued key function",
@@ -79,8 +104,10 @@ def gen_params(ctx):
     if c > 100000:
         raise RuntimeError("QUICK_SORT_CUTOFF unreasonably large: %d" % c)
     _cutoff[0] = c
-    txt = ("(* GENERATED by lib/props/c10.py gen_params from muggle/c/dsaa/sort.c on every run; do not edit. *)\n"
-           "Definition quick_sort_cutoff : nat := %d.\n" % c)
+    txt = ("(* GENERATED by lib/props/c10.py gen_params from muggle/c/dsaa/sort.c and heap.c on every run; do not edit. *)\n"
+           "From MV Require Import C10.GenLib.\nLocal Open Scope Z_scope.\n"
+           "Definition quick_sort_cutoff : nat := %d%%nat.\n\n" % c)
+    txt += slice_sources(d)
     # The extracted model embeds the constant: write the parameter file now and bring C10/Extract.vo (hence
     # coq/c10_model.ml) up to date, so that the model driver is never built from a stale extraction.
     pf = os.path.join(V.COQ, "gen", "Params_C10.v")
@@ -89,7 +116,8 @@ def gen_params(ctx):
         with open(pf, "w") as f:
             f.write(txt)
     ml = os.path.join(V.COQ, MODEL_BASE + ".ml")
-    deps = [pf, os.path.join(V.COQ, "C10", "Model.v"), os.path.join(V.COQ, "C10", "Extract.v")]
+    deps = [pf, os.path.join(V.COQ, "C10", "Model.v"), os.path.join(V.COQ, "C10", "Extract.v"),
+            os.path.join(V.COQ, "C10", "GenLib.v")]
     if os.path.exists(ml) and any(os.path.getmtime(d) > os.path.getmtime(ml) for d in deps):
         os.remove(ml)
     rc, log = V.coq_make(["C10/Extract.vo"], timeout=900)
@@ -107,6 +135,51 @@ def gen_params(ctx):
 
 
 # --------------------------------------------------------------------------
+# second tie (DESIGN.md 4.4): every loop of heap.c / sort.c cut into loop-free segments and re-translated from the
+# clang JSON AST of this run into Gallina (lib/props/c10_slice.py); C10/ProofsGen*.v prove each equal to the
+# hand-written segment of C10/Steps.v.  A segment that cannot be translated, or whose translation does not type-check,
+# is emitted as a comment: the definition is then missing and the obligation gen_..._matches_model breaks.
+
+def slice_sources(builddir):
+    from props import c10_slice as S
+    flags = ["-std=gnu11", "-DNDEBUG", "-DMUGGLE_C_EXPORTS", "-I" + V.REPO, "-I" + V.GEN_INC]
+    try:
+        gtxt, sigs, errs = S.generate(V.REPO, flags)
+    except Exception as e:          # a broken slicer must break the obligations, not the machinery
+        return "(* slicer failure: %s *)\n" % repr(e)[:400].replace("*)", "* )")
+    # the generated definitions must type-check on their own (the model imports this file)
+    rc, log = V.coq_make(["C10/GenLib.vo"], timeout=600)
+    if rc != 0:
+        return "(* C10/GenLib.v does not compile: generated segments left out *)\n"
+    tdir = os.path.join(builddir, "slicetest")
+    os.makedirs(tdir, exist_ok=True)
+    head = "From MV Require Import C10.GenLib.\nLocal Open Scope Z_scope.\n"
+
+    def compiles(body):
+        with open(os.path.join(tdir, "T.v"), "w") as f:
+            f.write(head + body)
+        rc2, out, err = V.sh(["coqc", "-Q", V.COQ, "MV", "T.v"], timeout=300, cwd=tdir)
+        return rc2 == 0, (err or out)
+    ok, msg = compiles(gtxt)
+    if ok:
+        return gtxt
+    parts = re.split(r"(?m)^(?=\(\* )", gtxt)
+    kept = []
+    for part in parts:
+        if "Definition " not in part:
+            kept.append(part)
+            continue
+        ok1, msg1 = compiles(part)
+        if ok1:
+            kept.append(part)
+        else:
+            m = re.search(r"Definition (\w+)", part)
+            kept.append("(* generated definition %s does not type-check: %s *)\n" % (
+                m.group(1) if m else "?", msg1[-300:].replace("*)", "* )").replace("(*", "( *")))
+    return "".join(kept)
+
+
+# --------------------------------------------------------------------------
 # case construction
 
 def sort_line(algo, keys, diff=True, fail=False):
@@ -114,8 +187,9 @@ def sort_line(algo, keys, diff=True, fail=False):
     return "sort %s %s %d%s" % (algo, mode, len(keys), "".join(" %d" % k for k in keys))
 
 
-def sort_case(name, lines):
-    return V.Case(name, ["sorts"] + lines, {"kind": "sort"})
+def sort_case(name, lines, cmpmode=None):
+    """cmpmode: None / "diff" / "big" - the magnitudes the driver's comparator returns (only the sign may matter)"""
+    return V.Case(name, ["sorts"] + (["cmp " + cmpmode] if cmpmode else []) + lines, {"kind": "sort"})
 
 
 def heap_case(name, cap, keyvals, ops):
@@ -154,6 +228,10 @@ def corpus_cases(ctx):
     cs.append(heap_case("corpus-heap-grow", 1, [5, 4, 3, 2, 1], ["ins 1 1", "ins 2 2", "ins 3 3", "ins 4 4", "ins 5 5",
                                                                  "find 3", "remf 3", "root", "drain", "ext", "rem 0", "rem 1"]))
     cs.append(heap_case("corpus-heap-init-zero", 0, [1], ["ins 1 0", "ext"]))
+    # seeded change C10-10: clear with all-NULL free functions must still empty the heap
+    cs.append(heap_case("corpus-heap-clear-null-reuse", 2, [5, 1, 3, 4],
+                        ["ins 1 11", "ins 2 0", "ins 3 13", "ext", "clr N", "root", "ext", "find 1", "ins 4 14", "root",
+                         "ins 1 15", "drain", "clr N", "ins 3 0", "clr C", "reinit 1", "ins 2 12", "ins 1 0", "drain"]))
     d = os.path.join(V.VERIF, "corpus", "C10")
     if os.path.isdir(d):
         for f in sorted(os.listdir(d)):
@@ -179,13 +257,29 @@ def exhaustive_sort_cases(maxlen, nsym, per_case=1500):
     return cases
 
 
-def structured_sort_cases(cutoff, extra_lengths):
+def structured_sort_cases(cutoff, extra_lengths, cmpmode=None):
     cases = []
     lens = list(range(0, 2 * cutoff + 4)) + list(extra_lengths)
     for algo in ALGOS:
         for n in lens:
             lines = [sort_line(algo, k) for _, k in sorted(structured(n).items())]
-            cases.append(sort_case("st-%s-n%d" % (algo, n), lines))
+            cases.append(sort_case("st%s-%s-n%d" % (cmpmode or "", algo, n), lines, cmpmode))
+    return cases
+
+
+def equal_key_big_cases(lengths, algos=("shell", "heap", "merge", "quick")):
+    """long arrays with MANY EQUAL keys (the unit tests only sort distinct keys at this size); judged by the monitor"""
+    cases = []
+    for n in lengths:
+        pats = [
+            ("fewdesc", [(n - i) // (n // 7 + 1) for i in range(n)]),        # 8 values, descending, smallest last
+            ("three", [(i * 7919 + 1) % 3 for i in range(n)]),
+            ("runs", [(i // 97) % 5 for i in range(n)]),
+            ("alleq1", [4] * (n - 1) + [0]),                                 # all equal but the last
+            ("alleq", [4] * n),
+        ]
+        for pname, ks in pats:
+            cases.append(sort_case("eqbig-n%d-%s" % (n, pname), [sort_line(a, ks, diff=False) for a in algos]))
     return cases
 
 
@@ -218,11 +312,11 @@ def random_sort_cases(rng, n_small, n_mid, n_big):
     for i in range(n_small):
         n = rng.range(0, 64)
         ks = random_keys(rng, n)
-        cases.append(sort_case("rnd-small-%d" % i, [sort_line(a, ks) for a in ALGOS]))
+        cases.append(sort_case("rnd-small-%d" % i, [sort_line(a, ks) for a in ALGOS], rng.choice([None, None, "diff", "big"])))
     for i in range(n_mid):
         n = rng.range(65, MODEL_MAX)
         ks = random_keys(rng, n)
-        cases.append(sort_case("rnd-mid-%d" % i, [sort_line(a, ks) for a in ALGOS]))
+        cases.append(sort_case("rnd-mid-%d" % i, [sort_line(a, ks) for a in ALGOS], rng.choice([None, "diff", "big"])))
     for i in range(n_big):
         n = rng.choice([1000, 4096, 9999, 10000, rng.range(MODEL_MAX + 1, 10000)])
         ks = random_keys(rng, n)
@@ -253,6 +347,13 @@ def heap_position_cases(maxsize):
                 for idx in range(0, s + 2):
                     cases.append(heap_case("hp-s%d-%s-c%d-rem%d" % (s, pname, cap, idx), cap, kv,
                                            build + ["rem %d" % idx, "root", "drain"]))
+                    if cap == 1 and pname in ("zig", "eq", "smalltail"):
+                        # the free callbacks are a per-call choice: all NULL / key only / value only; and the
+                        # comparator may return any magnitude
+                        flag = ("N", "K", "V")[(s + idx) % 3]
+                        cases.append(heap_case("hp-s%d-%s-c%d-rem%d%s" % (s, pname, cap, idx, flag), cap, kv,
+                                               ["cmp " + ("diff", "big")[idx % 2]] + build +
+                                               ["rem %d %s" % (idx, flag), "root", "ext", "ins 1 9", "rem 1 N", "drain"]))
                 for k in range(1, s + 1):
                     cases.append(heap_case("hp-s%d-%s-c%d-remf%d" % (s, pname, cap, k), cap, kv,
                                            build + ["find %d" % k, "remf %d" % k, "root", "drain"]))
@@ -359,6 +460,56 @@ def heap_growth_failure_cases():
                                                "ins %d 5" % (full + 1), "ens %d F" % (4 * full + 40), "drain"]))
     return cases
 
+def heap_clear_cases(maxsize):
+    """a heap (empty, full, partly consumed) is cleared - free functions all NULL, or counting callbacks - or
+    destroyed and re-initialised, and then the same heap object keeps being used"""
+    cases = []
+    for s in range(0, maxsize + 1):
+        for pname in ("inc", "zig"):
+            kv = HEAP_PATTERNS[pname](s + 3)
+            ka, kb, kc = s + 1, s + 2, s + 3
+            build = ["ins %d %d" % (i + 1, (i % 3 == 0) and 0 or (i + 10)) for i in range(s)]
+            pres = [[], ["ext"], ["rem 1", "ins %d 0" % kc, "ext"]]
+            reuses = [
+                ["root", "ext", "find 1", "rem 1", "rem %d" % max(1, s), "drain"],
+                ["ins %d 7" % ka, "root", "find %d" % ka, "ext", "ext", "drain"],
+                ["ins %d 0" % kc, "ins %d 9" % kb, "ins %d 8" % ka, "find 1", "remf %d" % kb, "root", "rem 2", "clr C",
+                 "ins %d 1" % kb, "clr N", "root", "ins %d 2" % ka, "drain"],
+            ]
+            for cap in sorted(set((1, s + 1))):
+                for pi, pre in enumerate(pres):
+                    for mode in ("clr N", "clr C", "reinit %d" % (s % 4)):
+                        for ri, reuse in enumerate(reuses):
+                            cases.append(heap_case("hclr-s%d-%s-c%d-p%d-%s-u%d" % (s, pname, cap, pi, mode.replace(" ", ""), ri),
+                                                   cap, kv, build + pre + [mode] + reuse))
+    return cases
+
+
+def heap_big_cases(sizes):
+    """one family of LONG histories: n inserts in a row grow the heap by doubling from capacity 1 far past 64
+    (n = 4200: capacity 8192), then extracts / inserts / roots mixed, explicit dumps now and then (`dumps off`: no
+    dump line per op), a clear, reuse and a final drain; many equal keys"""
+    cases = []
+    for n in sizes:
+        for pname, kf in (("desc", lambda i: 63 - i), ("mix", lambda i: (i * 7919) % 37), ("eq3", lambda i: i % 3)):
+            nk = 64
+            kv = [kf(k) for k in range(nk)]
+            ops = ["dumps off"] + (["cmp big"] if pname == "mix" else [])
+            for i in range(n):
+                ops.append("ins %d %d" % ((i * 31) % nk + 1, (i % 4000) + 1 if i % 5 else 0))
+                if i in (70, 300, 1100, 2100) or i == n - 1:
+                    ops.append("dump")
+            for i in range(n // 2):
+                ops.append("ext")
+                if i % 4 == 3:
+                    ops.append("ins %d %d" % ((i * 17) % nk + 1, i % 4000 + 1))
+                if i % 257 == 256:
+                    ops.append("root")
+            ops += ["dump", "clr K", "ins 1 1", "ins 2 2", "dump", "dumps on", "ext", "drain"]
+            cases.append(heap_case("hbig-n%d-%s" % (n, pname), 1, kv, ops))
+    return cases
+
+
 def random_heap_case(rng, name, nops):
     nkeys = rng.range(1, 10)
     alpha = rng.choice([1, 2, 3, 5, 50])
@@ -366,6 +517,9 @@ def random_heap_case(rng, name, nops):
     cap = rng.choice([0, 1, 1, 2, 3, 4])
     ops, size = [], 0
     capnow = 8 if cap == 0 else cap
+    if rng.chance(1, 3):
+        ops.append("cmp " + rng.choice(["diff", "big"]))
+    cbflag = lambda: rng.choice(["", "", " N", " K", " V"])
     for _ in range(nops):
         r = rng.below(100)
         if r < 45 or size == 0 and r < 80:
@@ -394,12 +548,20 @@ def random_heap_case(rng, name, nops):
             # every position incl. the last slot; sometimes 0 / size+1 / capacity
             idx = rng.choice([rng.range(1, max(1, size)), size, size, 1, 0, size + 1, capnow])
             idx = min(idx, capnow)
-            ops.append("rem %d" % idx)
+            ops.append("rem %d%s" % (idx, cbflag()))
             if 1 <= idx <= size:
                 size -= 1
-        elif r < 97:
-            ops.append("remf %d" % rng.range(1, nkeys))
+        elif r < 95:
+            ops.append("remf %d%s" % (rng.range(1, nkeys), cbflag()))
             size = max(0, size - 1)   # upper bound only; the monitor tracks the real size
+        elif r < 97:
+            if rng.chance(1, 4):
+                c2 = rng.choice([0, 1, 2, 3, 4])
+                ops.append("reinit %d" % c2)
+                capnow = 8 if c2 == 0 else c2
+            else:
+                ops.append(rng.choice(["clr N", "clr N", "clr C", "clr K", "clr V"]))
+            size = 0
         else:
             ops.append("drain")
             size = 0
@@ -413,9 +575,15 @@ def generate(rng, tier):
     if tier == "quick":
         cases += exhaustive_sort_cases(7, 3)
         cases += structured_sort_cases(cutoff, [50, 100, 257, MODEL_MAX])
+        cases += structured_sort_cases(cutoff, [50], "diff")
+        cases += structured_sort_cases(cutoff, [257], "big")
+        cases += [sort_case("exbig-" + c.name, c.lines[1:], "big") for c in exhaustive_sort_cases(5, 3)]
+        cases += equal_key_big_cases([20000])[:2]
+        cases += heap_big_cases([4200])[:2]
         cases += random_sort_cases(rng.fork("sorts"), 60, 6, 3)
         cases += heap_position_cases(8)
         cases += heap_growth_failure_cases()
+        cases += heap_clear_cases(6)
         hr = rng.fork("heap")
         cases += [random_heap_case(hr, "hr-%d" % i, hr.range(5, 60)) for i in range(400)]
         cases += alloc_fail_sort_cases(rng.fork("allocfail"), 12)
@@ -424,9 +592,15 @@ def generate(rng, tier):
     else:
         cases += exhaustive_sort_cases(9, 4)
         cases += structured_sort_cases(cutoff, [50, 64, 100, 127, 128, 129, 257, MODEL_MAX])
+        cases += structured_sort_cases(cutoff, [50, 64, 100, 257, MODEL_MAX], "diff")
+        cases += structured_sort_cases(cutoff, [50, 64, 100, 257, MODEL_MAX], "big")
+        cases += [sort_case("exbig-" + c.name, c.lines[1:], "big") for c in exhaustive_sort_cases(7, 3)]
+        cases += equal_key_big_cases([16384, 16385, 20000, 32768, 40000])
+        cases += heap_big_cases([2000, 4200, 9000])
         cases += random_sort_cases(rng.fork("sorts"), 600, 40, 30)
         cases += heap_position_cases(12)
         cases += heap_growth_failure_cases()
+        cases += heap_clear_cases(10)
         hr = rng.fork("heap")
         cases += [random_heap_case(hr, "hr-%d" % i, hr.range(5, 200)) for i in range(6000)]
         cases += alloc_fail_sort_cases(rng.fork("allocfail"), 200)
@@ -453,6 +627,8 @@ def search(rng, diverging, tier):
         cases.append(sort_case("search-rnd-%d" % i, [sort_line(a, ks) for a in ALGOS]))
     cases += heap_position_cases(6)
     cases += heap_growth_failure_cases()
+    cases += heap_clear_cases(4)
+    cases += structured_sort_cases(cutoff, [50], "big")
     cases += [random_heap_case(rng, "search-hr-%d" % i, rng.range(5, 40)) for i in range(300)]
     cases += killer_cases([100, 200, MODEL_MAX, 1000])
     cases += adversary_cases([100, 200, MODEL_MAX, 1500])
@@ -560,6 +736,7 @@ def monitor(case, outs):
     ref = []          # reference multiset of (kid, vid)
     cur = []          # nodes[1..size] of the last dump
     curcap = [0]      # capacity of the last dump
+    dumps_on = [True] # `dumps off`: no dump line after each op (big histories); `dump` prints one on demand
     pos = 1
 
     def key(nd):
@@ -598,6 +775,8 @@ def monitor(case, outs):
 
     def unchanged(p, what, before, capbefore):
         """a refused operation changes nothing: same nodes in the same slots, same capacity"""
+        if not dumps_on[0]:
+            return None
         e = check_dump(p, what)
         if e:
             return e
@@ -610,12 +789,24 @@ def monitor(case, outs):
     if e:
         return e
     pos += 1
+    full_check = check_dump
+
+    def check_dump(p, what):          # the dump that follows an op (absent when dumps are off)
+        return full_check(p, what) if dumps_on[0] else None
     for n, ln in enumerate(ls[1:], 1):
         w = ln.split()
         if not w:
             continue
         op = w[0]
         what = "op %d (%s)" % (n, ln)
+        dn = 1 if dumps_on[0] else 0
+        if op == "cmp":               # comparator magnitudes: no output
+            continue
+        if op == "dumps":
+            dumps_on[0] = not (len(w) > 1 and w[1] == "off")
+            continue
+        if not dumps_on[0] and op in ("rem", "remf", "find"):
+            return None               # these are judged against the last dump: not generated with dumps off
         if pos >= len(outs):
             return "%s: no result" % what
         o = outs[pos].split()
@@ -634,7 +825,7 @@ def monitor(case, outs):
             else:
                 ref.append((int(w[1]), int(w[2])))
                 e = check_dump(pos + 1, what)
-            pos += 2
+            pos += 1 + dn
         elif op == "ens":
             want, injected = int(w[1]), w[-1] == "F"
             before, capbefore = list(cur), curcap[0]
@@ -650,7 +841,7 @@ def monitor(case, outs):
                     e = "%s: granted but capacity is %d" % (what, curcap[0])
             else:
                 return "%s: answered %r" % (what, outs[pos])
-            pos += 2
+            pos += 1 + dn
         elif op in ("ext", "root"):
             if not ref:
                 exp = "ext 0" if op == "ext" else "root -"
@@ -670,7 +861,7 @@ def monitor(case, outs):
                     ref.remove(nd)
             if op == "ext":
                 e = check_dump(pos + 1, what)
-                pos += 2
+                pos += 1 + dn
             else:
                 e = None
                 pos += 1
@@ -686,15 +877,22 @@ def monitor(case, outs):
             pos += 1
         elif op == "rem":
             idx = int(w[1])
+            flag = w[-1] if w[-1] in ("N", "K", "V") else ""
+            if "CALLS" in o:
+                return "%s: a free callback was called more than once: %r" % (what, outs[pos])
             if 1 <= idx <= len(cur):
                 nd = cur[idx - 1]
-                if outs[pos] != "rem 1 %d:%d" % nd:
-                    return "%s: answered %r, expected removal of %d:%d" % (what, outs[pos], nd[0], nd[1])
+                # a callback that is passed is handed the key / value of the removed entry exactly once, one that
+                # is not passed (NULL) sees nothing
+                seen = (nd[0] if flag in ("", "K") else 0, nd[1] if flag in ("", "V") else 0)
+                if outs[pos] != "rem 1 %d:%d" % seen:
+                    return "%s: answered %r, expected removal of %d:%d with the callbacks seeing %d:%d" % (
+                        what, outs[pos], nd[0], nd[1], seen[0], seen[1])
                 ref.remove(nd)
             elif outs[pos] != "rem 0":
                 return "%s: index outside 1..size answered %r" % (what, outs[pos])
             e = check_dump(pos + 1, what)
-            pos += 2
+            pos += 1 + dn
         elif op == "remf":
             want = kv[int(w[1])]
             idx = int(o[1])
@@ -705,11 +903,61 @@ def monitor(case, outs):
                 if not (1 <= idx <= len(cur)) or key(cur[idx - 1]) != want:
                     return "%s: find returned index %d which does not hold key %d" % (what, idx, want)
                 nd = cur[idx - 1]
-                if outs[pos] != "remf %d 1 %d:%d" % (idx, nd[0], nd[1]):
-                    return "%s: answered %r, expected removal of %d:%d" % (what, outs[pos], nd[0], nd[1])
+                flag = w[-1] if w[-1] in ("N", "K", "V") else ""
+                if "CALLS" in o:
+                    return "%s: a free callback was called more than once: %r" % (what, outs[pos])
+                seen = (nd[0] if flag in ("", "K") else 0, nd[1] if flag in ("", "V") else 0)
+                if outs[pos] != "remf %d 1 %d:%d" % (idx, seen[0], seen[1]):
+                    return "%s: answered %r, expected removal of %d:%d with the callbacks seeing %d:%d" % (
+                        what, outs[pos], nd[0], nd[1], seen[0], seen[1])
                 ref.remove(nd)
             e = check_dump(pos + 1, what)
-            pos += 2
+            pos += 1 + dn
+        elif op in ("clr", "reinit"):
+            # clear / destroy: with callbacks, every key and every non-NULL value of the heap is handed to its free
+            # callback exactly once (right pool); without, nothing is; afterwards the heap is EMPTY whatever the
+            # callbacks were, keeps its capacity (clear) / is a fresh heap (destroy + init)
+            mode = "C" if op == "reinit" else (w[1] if len(w) > 1 else "")
+            counting = mode == "C"
+            if o[0] != op or "K" not in o or "V" not in o:
+                return "%s: answered %r" % (what, outs[pos][:120])
+            if "BADPOOL" in o:
+                return "%s: a free callback was called with a pool other than the one passed in" % what
+            ki, vi = o.index("K"), o.index("V")
+            try:
+                fk = [int(x) for x in o[ki + 1:vi]]
+                fv = [int(x) for x in o[vi + 1:]]
+            except ValueError:
+                return "%s: answered %r" % (what, outs[pos][:120])
+            expk = sorted(k for k, _ in ref) if mode in ("C", "K") else []
+            expv = sorted(v for _, v in ref if v != 0) if mode in ("C", "V") else []
+            if sorted(fk) != expk:
+                return "%s: keys handed to the free callback %s, expected each key of the heap exactly once: %s" % (
+                    what, fk, expk)
+            if sorted(fv) != expv:
+                return "%s: values handed to the free callback %s, expected each non-NULL value of the heap exactly once: %s" % (
+                    what, fv, expv)
+            capbefore = curcap[0]
+            ref = []
+            if op == "clr":
+                e = check_dump(pos + 1, what)
+                if not e and curcap[0] != capbefore:
+                    e = "%s: capacity changed from %d to %d" % (what, capbefore, curcap[0])
+                pos += 1 + dn
+            else:
+                cap2 = int(w[1])
+                valid2 = (8 if cap2 == 0 else cap2) < (1 << 31)
+                if pos + 1 >= len(outs) or outs[pos + 1] != ("init 1" if valid2 else "init 0"):
+                    return "%s: re-init with capacity %d answered %r" % (what, cap2, outs[pos + 1] if pos + 1 < len(outs) else None)
+                if not valid2:
+                    return None
+                e = full_check(pos + 2, what)
+                if not e and curcap[0] != (8 if cap2 == 0 else cap2):
+                    e = "%s: capacity after re-init is %d" % (what, curcap[0])
+                pos += 3
+        elif op == "dump":
+            e = full_check(pos, what)
+            pos += 1
         elif op == "drain":
             try:
                 nds = _parse_nodes(o[1:])
@@ -722,7 +970,7 @@ def monitor(case, outs):
                 return "%s: keys not yielded in non-decreasing order: %s" % (what, ks)
             ref = []
             e = check_dump(pos + 1, what)
-            pos += 2
+            pos += 1 + dn
         else:
             e = None
             pos += 1
@@ -801,8 +1049,10 @@ MANIFEST = {
                    "heap.c/sort.c compiled from the working tree under ASan/UBSan, plus an independent monitor."),
     "design_ref": "DESIGN.md section 6 / C10, section 5 row C10",
     "level_note": ("Trusted: Coq kernel, extraction, the differential harness; comparator = total preorder; sizes < 2^31; "
-                   "malloc oracle.  Quick-sort cutoff re-extracted each run and its side condition re-checked."),
-    "technique": "Coq proofs by loop invariants over index-faithful array models + extracted-model differential run + monitor",
+                   "malloc oracle.  Quick-sort cutoff re-extracted each run and its side condition re-checked; every loop iteration "
+                   "of heap.c / sort.c re-translated each run and proved equal to the model's segment (trusted: clang AST, slicer)."),
+    "technique": ("Coq proofs by loop invariants over index-faithful array models + extracted-model differential run + monitor + "
+                  "per-run re-translation of every loop iteration from the clang AST with kernel-checked equality to the model's segments"),
 }
 
 EVIDENCE_NOTES += [
@@ -811,11 +1061,29 @@ EVIDENCE_NOTES += [
     "and >= tie-break terminates, returns the root = a minimum, order + multiset); heap_inv_remove_any_position (combined up/down "
     "loop terminates within the fuel 2*size+2, order + multiset for EVERY index 1..size, last slot included - repaired code); "
     "heap_growth_refusal_changes_nothing (ensure_capacity refused = identical heap, granted = same entries in the same slots); "
-    "heap_remove_outside_refused; heap_root_is_min; heap_empty_yields_nothing; heap_find_locates; heap_yields_sorted (repeated "
+    "heap_remove_outside_refused; heap_root_is_min; heap_empty_yields_nothing; heap_find_locates; "
+    "heap_clear_gives_valid_empty_heap (clear, whatever the free callbacks are - both NULL included - yields the valid empty heap "
+    "of the same capacity, every old slot NULL, contents = [], root/extract yield nothing, and the nodes handed to the callbacks are "
+    "exactly the old entries, each once: so all heap theorems apply to any later use and no old entry can come back); "
+    "heap_destroy_releases_contents; heap_yields_sorted (repeated "
     "extract = sorted permutation of the contents); for each of insertion / shell / heap / merge / quick sort: termination of the "
     "fuelled model (result is not None; for quick sort this includes that no partition scan leaves the array), X_sorted and "
     "X_permutation for every list length incl. 0 and 1 and every key function; quick_cutoff_ok (3 <= cutoff) against the constant "
     "re-extracted from sort.c.",
+    "TRANSLATOR TIE (43 obligations gen_<fn>_<segment>_matches_model + 6 model_<loop>_is_<segment>): an edit of heap.c / sort.c that "
+    "changes, for ANY state, which cut a segment reaches, an array element, a loop variable, a return value, a library call or its "
+    "arguments (growth formula capacity*2, bounds tests of remove / extract, comparison direction and tie-break of sift-up / sift-down "
+    "/ remove, insertion / shell inner loops and gap sequence, the comparing merge loop, median-of-3, partition scans and swap, "
+    "cutoff, the recursive calls and the insertion-sort tail, heap sort's insert / extract loops) breaks a proof obligation even when "
+    "no generated input reaches the difference (checked: seeded C10-4 now breaks gen_qrec_pre_matches_model; 51 hand-made semantic "
+    "edits, one or more per segment); loop rotation, for <-> while <-> do, guard clauses, helper extraction (swap through pointers, "
+    "release helpers), hoisted / renamed locals, >> 1 for / 2, swapped comparator arguments, memcpy for the copy-back keep them "
+    "(refactored/C10-A..D and 10 more rewrites stay quiet).  NOT in the translator tie: the tail loops / block copies of the merge "
+    "(after the comparing loop), muggle_heap_ensure_capacity's body and muggle_heap_init (allocation + copy; the call and its "
+    "argument are tied), the free-callback invocations themselves (ignored by the slicer; differential run + monitor), loops moved "
+    "into a helper function (reported as a broken obligation: no-failing-input-found).  The model-side link (model_*_is_*_step) is "
+    "proved for the three heap loops, the insertion inner loop and the two partition scans; shell_inner and merge_loop are linked to "
+    "their segments by the differential run only.",
     "Nothing is left _partial.  Statements are about the REPAIRED code (fixes/C10-merge-sort-empty-array.patch, "
     "fixes/C10-quick-sort-empty-array.patch, fixes/C10-heap-remove-last-slot.patch); on the unrepaired tree the check reports "
     "VIOLATION with replays (count == 0 for merge/quick sort: heap-buffer-overflow; remove of the last slot: comparator called "
